@@ -428,16 +428,94 @@ type replay struct {
 	Choices []int `json:"choices"`
 }
 
+// stuckSession: a chunked upload whose first k chunks are accepted and whose next chunk is refused for
+// ever (style "416": the recoverable answer with Location and an unmoved Range; style "400": a plain
+// refusal, after which the client asks the session for its status and is told nothing moved). Returns
+// how often the stuck chunk was sent before BlobPut gave up, and whether it gave up at all.
+func stuckSession(t *testing.T, k int, style string) (sent int, nreq int, err error) {
+	_, other := qsched.Bubble(t, func() {
+		net := world(Cfg{Op: "blob-put-chunked", Limit: 3})
+		patches := 0
+		net.Decide = func(e *modelreg.Entry) *modelreg.Answer {
+			nreq++
+			if nreq > 600 {
+				return &modelreg.Answer{Err: errors.New("harness: request horizon")}
+			}
+			if e.Kind != "upload-patch" {
+				return nil
+			}
+			patches++
+			if patches <= k {
+				return nil
+			}
+			sent++
+			if style == "400" {
+				return &modelreg.Answer{Status: 400, Header: http.Header{}, Body: []byte("{}"), Note: "stuck-400"}
+			}
+			h := net.Hosts[up]
+			cur := 0
+			if u := h.Repo(repo).Uploads[e.Ref]; u != nil {
+				cur = len(u.Data)
+			}
+			a := &modelreg.Answer{Status: 416, Header: http.Header{}, Body: []byte("{}"), Note: "stuck-416"}
+			a.Header.Set("Location", "/v2/"+repo+"/blobs/uploads/"+e.Ref)
+			a.Header.Set("Range", fmt.Sprintf("0-%d", cur-1))
+			return a
+		}
+		hu := config.Host{Name: up, Hostname: up, TLS: config.TLSDisabled, BlobChunk: 3, BlobMax: 6}
+		rc := rcenv.New(net, nil, rcenv.Opts{Hosts: []config.Host{hu}, RetryLimit: 3})
+		err, _ = doOp(rc, "blob-put-chunked")
+	})
+	if other != nil {
+		err = fmt.Errorf("PANIC: %v", other)
+	}
+	return
+}
+
+func stuckBlock(t *testing.T, rec *ev.Rec) {
+	for _, style := range []string{"416", "400"} {
+		base, n0, err0 := stuckSession(t, 0, style)
+		rec.Eval(1)
+		if err0 == nil || n0 > 600 {
+			rec.Violation("stuck-session-no-termination style="+style, fmt.Sprintf("a chunked upload whose first chunk is refused for ever did not end in an error: err=%v after %d requests", err0, n0), replay{Cfg{Op: "stuck-" + style, Limit: 0}, nil})
+			continue
+		}
+		for k := 1; k <= 4; k++ {
+			sent, n, err := stuckSession(t, k, style)
+			rec.Eval(1)
+			rec.Count("stuck_sessions", 1)
+			rec.Distinct(fmt.Sprintf("stuck %s k=%d sent=%d", style, k, sent))
+			switch {
+			case err == nil || n > 600:
+				rec.Violation("stuck-session-no-termination style="+style, fmt.Sprintf("after %d accepted chunks the next chunk is refused for ever; BlobPut did not end in an error: err=%v after %d requests", k, err, n), replay{Cfg{Op: "stuck-" + style, Limit: k}, nil})
+			case sent > base:
+				rec.Violation("stuck-session-budget-grows-with-progress style="+style, fmt.Sprintf("a chunk refused for ever is sent %d times when nothing was accepted before it and %d times after %d accepted chunks: the bound on repeating a request without progress depends on the history of the session", base, sent, k), replay{Cfg{Op: "stuck-" + style, Limit: k}, nil})
+			}
+		}
+	}
+}
+
 func TestVerifC12API(t *testing.T) {
 	rec := ev.New()
 	defer rec.Flush(t)
 	rec.Rule("seam ii: operation ∈ {manifest get/head/put/delete, blob get/head/put (single request and chunked)/delete/mount, tag list over 3 pages, tag delete, referrers over 2 pages, repository list, image copy} × {named registry alone, with one mirror holding the content and one lacking it} × retry limit 3; " +
 		"every sequence of at most k answers from {500,502,503,504,408,429,429+Retry-After,reset,truncated body,404,416,401} over the requests of the operation (k = 2 quick; 1 for image copy; thorough 3 / 2). " +
-		"Oracle: termination, state-changing and upload-session requests only at the named registry, no chunk resent more than 12 times, transient faults fewer than the limit leave result and observable registry state equal to the fault-free run. distinct_nontrivial = distinct (operation, mirrors, fault list, outcome)")
+		"Oracle: termination, state-changing and upload-session requests only at the named registry, no chunk resent more than 12 times, a chunk refused for ever after k=1..4 accepted chunks (416 with an unmoved Range, or 400 followed by a status reply that reports no progress) is sent no more often than one refused from the start, transient faults fewer than the limit leave result and observable registry state equal to the fault-free run. distinct_nontrivial = distinct (operation, mirrors, fault list, outcome)")
 	if rd := rec.ReplayData(); rd != nil {
 		var rp replay
 		if err := json.Unmarshal(rd, &rp); err != nil {
 			rec.HarnessError("replay: %v", err)
+			return
+		}
+		if strings.HasPrefix(rp.Cfg.Op, "stuck-") {
+			style := strings.TrimPrefix(rp.Cfg.Op, "stuck-")
+			b, _, _ := stuckSession(t, 0, style)
+			sent, n, err := stuckSession(t, rp.Cfg.Limit, style)
+			fmt.Printf("replay stuck session style=%s: refused from the start: sent %d times; after %d accepted chunks: sent %d times, %d requests, err=%v\n", style, b, rp.Cfg.Limit, sent, n, err)
+			rec.Eval(1)
+			if sent > b {
+				rec.Violation("stuck-session-budget-grows-with-progress style="+style, "see output", rp)
+			}
 			return
 		}
 		base := run(t, explore.NewCtx(nil), rp.Cfg)
@@ -453,6 +531,9 @@ func TestVerifC12API(t *testing.T) {
 			rec.Violation(key(k, rp.Cfg, r.faults, r), m, rp)
 		}
 		return
+	}
+	if rec.ShardI == 0 {
+		stuckBlock(t, rec)
 	}
 	var items []Cfg
 	for _, op := range ops {
